@@ -167,6 +167,15 @@ template <class L1, class L2, class L3> void static_ops() {
       J("Static").str("op", "generate").str("models", models).arr("map1", m1).arr("p1", a.get()).arr("out", o.get()).emit(); }
     { J("Static").str("op", "min").str("models", models).arr("map1", m1).arr("p1", a.get()).num("ret", gil::static_min(a.p)).emit();
       J("Static").str("op", "max").str("models", models).arr("map1", m1).arr("p1", a.get()).num("ret", gil::static_max(a.p)).emit(); }
+    // every channel in turn holds the unique minimum / maximum; through a mutable and through a const pixel
+    for (int k = 0; k < MPixel16<L1>::n; ++k) {
+        MPixel16<L1> r; std::vector<long long> v; for (int j = 0; j < MPixel16<L1>::n; ++j) v.push_back(100 + 10 * ((j + k) % MPixel16<L1>::n)); r.set(v);
+        typename MPixel16<L1>::pix_t const& cp = r.p;
+        J("Static").str("op", "min").str("models", models).arr("map1", m1).arr("p1", r.get()).num("ret", gil::static_min(r.p)).emit();
+        J("Static").str("op", "max").str("models", models).arr("map1", m1).arr("p1", r.get()).num("ret", gil::static_max(r.p)).emit();
+        J("Static").str("op", "min").str("models", models + "/const").arr("map1", m1).arr("p1", r.get()).num("ret", gil::static_min(cp)).emit();
+        J("Static").str("op", "max").str("models", models + "/const").arr("map1", m1).arr("p1", r.get()).num("ret", gil::static_max(cp)).emit();
+    }
 }
 
 // ---- layouts -------------------------------------------------------------------------------------------
